@@ -99,9 +99,9 @@ Definition smgr_handlers : list handler :=
 (* SyncManager._validate_provider_roots *)
 Definition roots_handlers : list handler :=
   [ {| h_classes := [KException]; h_acts := [ANotifyIfCloud; ABackoff] |} ].
-(* SyncManager.do: the clauses guarding `self.state.change(self.aging)` — none in the code as it is (the call is
-   outside every try) *)
-Definition change_handlers : list handler := [].
+(* SyncManager.do: the clause guarding `self.state.change(self.aging)` (its path fill-in calls the provider) *)
+Definition change_handlers : list handler :=
+  [ {| h_classes := [KCloud]; h_acts := [ANotify; ABackoff] |} ].
 (* EventManager.do *)
 Definition emgr_handlers : list handler :=
   [ {| h_classes := [KTemporary; KDisconnected; KNamespace]; h_acts := [ANotify; ABackoff] |};
